@@ -43,7 +43,7 @@ CLAIMED = {
         "level": "Exhaustive static decision of the finite dispatch and comparison tables: operator node kinds -> the float operation "
                  "in the closure they pass to handle_arithmetic; the comparison predicate interpreted for 6 operators x 3 signs; the "
                  "25-cell kind x kind table of compare_values (antisymmetry, order, empty as neutral).",
-        "note": "Coercions, function results, error precedence with values and array broadcasting are numerical/runtime and not decided. " + TRUST,
+        "note": "Coercions, function results and array broadcasting are numerical/runtime and not decided; left-to-right error precedence is decided for the binary operator handlers only (ERR-ORDER). " + TRUST,
         "technique": "match-arm extraction + closure body inspection + finite-domain path interpretation",
     },
     "C07": {
@@ -84,7 +84,7 @@ CLAIMED = {
                  "terminator reachable from the lexer/parser/formatter/cell-input entry points is discharged by a zone "
                  "(difference-bound) abstract interpretation with type-keyed havoc, variant partitioning and callee "
                  "summaries, by obligations on the decoded language/locale tables, or listed as assumed with its reason.",
-        "note": "11 of 167 sites are ASSUMED (listed in the evidence with reasons: lexer invariant position<=len, digit-index "
+        "note": "16 of 174 sites are ASSUMED (listed in the evidence with reasons: lexer invariant position<=len, token marks, digit-index "
                 "relation of the number formatter, parsed_formulas/worksheets length agreement, embedded table decode). Not "
                 "decided: termination, recursion depth, signed overflow (wraps in release), spreadsheet functions and "
                 "evaluation (stop at Model::evaluate). " + TRUST,
@@ -96,7 +96,7 @@ CLAIMED = {
                  "reachable from load_from_xlsx(_bytes), load_from_icalc, Model::from_workbook and Model::from_bytes in "
                  "both crates is discharged by the zone abstract interpretation, by an enumerated guard idiom, or listed as "
                  "assumed with its reason.",
-        "note": "7 of 154 sites are ASSUMED with reasons in the evidence. 14 genuine import panics found by this inventory were "
+        "note": "8 of 157 sites are ASSUMED with reasons in the evidence; one known finding (unbounded array-ref expansion, LOOP-BOUND). 15 genuine import panics found by this inventory were "
                 "repaired in /repo (missing style sections / sheetData, localSheetId, rgb slicing, empty comment text, "
                 "relationship paths, missing relationship ids, empty workbook, table ref, style ids, numFmtId, fixed "
                 "signatures). Not decided: third-party decoders (zip, roxmltree, bitcode), termination and memory bounds, "
